@@ -141,8 +141,13 @@ def cli_runs(seed, tier):
             first_stdout = None
             for t in ths:
                 dist = os.path.join(work, "got.dist")
+                # the save path is reused from run to run, as a user re-running the tool does: on every
+                # other run it already holds a LONGER, unrelated file, which the tool must replace
                 if os.path.exists(dist):
                     os.remove(dist)
+                if (nruns + t) % 2 == 0:
+                    with open(dist, "wb") as fh:
+                        fh.write(b"\xab" * (len(exp_bytes) + 8 * (17 + nruns % 5)))
                 env = dict(kv.ENV, RAYON_NUM_THREADS=str(t))
                 import subprocess
                 p = subprocess.run([exe, "--method", m, "--save-dist-to", dist, csv], stdout=subprocess.PIPE, stderr=subprocess.PIPE, env=env, timeout=600)
@@ -198,4 +203,50 @@ def cli_runs(seed, tier):
     out["coverage"] = dict(hist, files=len(files), invalid_names=len(bad_names),
                            what="locations binary (release) vs sequential Haversine + linkage; saved matrix bytes; load reproduces stdout; thread counts 1,2,3,7,16")
     out["ok"] = out["ok"] and not out["violations"]
+    return out
+
+
+def overflow_band(seed, tier):
+    """C12 at the edge of its stated domain: entries whose squares are finite but whose sums of
+    squares overflow (0.63 .. 0.90 times sqrt(MAX)), Ward / centroid / median through every entry
+    point, one process per case (a call that does not return is killed after a few seconds), plus
+    the same shapes at a safe magnitude as controls. Anything but a normal return with finite
+    heights is reported; the band cases are a recorded known finding (known_findings.txt)."""
+    import subprocess
+    from concurrent.futures import ThreadPoolExecutor
+    out = {"ok": True, "evaluations": 0, "distinct_nontrivial": 0, "broken": [], "violations": [],
+           "coverage": {"what": "sqrt(MAX) band probe, one process per case", "outcomes": {}}, "samples": []}
+    ok, log, binp = kv.harness_build("release")
+    if not ok:
+        out["broken"].append("harness build failed: " + log[-800:])
+        return out
+    try:
+        count = int(subprocess.run([binp, "band", "--count", "1"], stdout=subprocess.PIPE, timeout=30).stdout.decode().strip())
+    except Exception as e:  # noqa: BLE001
+        out["broken"].append("band --count failed: %r" % (e,))
+        return out
+
+    def one(i):
+        try:
+            p = subprocess.run([binp, "band", "--index", str(i)], stdout=subprocess.PIPE, stderr=subprocess.DEVNULL, timeout=6)
+            lines = [l for l in p.stdout.decode().splitlines() if l.startswith("BAND ") or l.startswith("HANG")]
+            return i, (lines[-1] if lines else "BAND case %d :: no output (rc %d)" % (i, p.returncode))
+        except subprocess.TimeoutExpired:
+            d = subprocess.run([binp, "band", "--index", str(i), "--describe", "1"], stdout=subprocess.PIPE, timeout=30).stdout.decode().strip()
+            return i, "%s :: hang (no return within 6 s)" % (d or ("BAND case %d" % i))
+    with ThreadPoolExecutor(max_workers=kv.NPROC) as ex:
+        results = list(ex.map(one, range(count)))
+    hist = {}
+    for i, line in results:
+        out["evaluations"] += 1
+        desc, _, outcome = line.partition(" :: ")
+        kind = outcome.split()[0] if outcome else "?"
+        hist[kind] = hist.get(kind, 0) + 1
+        if outcome != "ok-finite":
+            tag = "band=squares-finite-sums-overflow" if "(band)" in desc else "control-input"
+            out["violations"].append({"desc": "C12 %s: %s -> %s; replay: build/target/release/kvh band --index %d" % (tag, desc[5:], outcome, i)})
+        elif len(out["samples"]) < 2:
+            out["samples"].append("[band] " + line)
+    out["coverage"]["outcomes"] = hist
+    out["distinct_nontrivial"] = count
     return out
